@@ -72,11 +72,11 @@ var zzBreakages = []zzBreakage{
 	{"wrong number of arguments", []string{"move 1"}, "top-early func proc handler if loop top-late funcif handlerloop procwhile"},
 	{"too many arguments", []string{"cls 1"}, "top-early func proc handler if loop top-late funcif handlerloop procwhile"},
 	{"missing return", []string{"func g:num", "    print 1", "end"}, "top-early top-late"},
-	{"redeclaration of the loop variable", []string{"i := 5", "print i"}, "loop"},
-	{"typed redeclaration of the loop variable", []string{"i:num", "print i"}, "loop"},
-	{"redeclaration of the loop variable in a handler", []string{"j := 5", "print j"}, "handlerloop"},
-	{"redeclaration of a parameter", []string{"n := 5", "print n"}, "func"},
-	{"redeclaration of a handler parameter", []string{"k := \"x\"", "print k"}, "handler"},
+	{"redeclaration of the loop variable", []string{"print i", "i := 5", "print i"}, "loop"},
+	{"typed redeclaration of the loop variable", []string{"print i", "i:num", "print i"}, "loop"},
+	{"redeclaration of the loop variable in a handler", []string{"print j", "j := 5", "print j"}, "handlerloop"},
+	{"redeclaration of a parameter", []string{"print n", "n := 5", "print n"}, "func"},
+	{"redeclaration of a handler parameter", []string{"print k", "k := \"x\"", "print k"}, "handler"},
 	{"unreachable code", []string{"return 1", "print 2"}, "func funcif"},
 	{"unreachable code after break", []string{"break", "print 2"}, "loop handlerloop procwhile"},
 	{"break outside loop", []string{"break"}, "top-early func proc handler if top-late funcif"},
